@@ -7,7 +7,7 @@ import ast
 from vf import alg, catalog
 from vf.alg import Poly, as_poly
 from vf.harness import Check, new_interp, N, L, DT, M, R, H_of, loc, AnalysisBroken, state_hat
-from vf.interp import UFun, Obj, RepoRaise, ClassVal
+from vf.interp import UFun, Obj, RepoRaise, ClassVal, AnalysisError
 from vf.tens import Tens
 from specs import etdrk as SP
 
@@ -24,6 +24,29 @@ def _super_init_keywords(cls):
         if isinstance(n, ast.Call) and isinstance(n.func, ast.Attribute) and n.func.attr == "__init__" and isinstance(n.func.value, ast.Call) and getattr(n.func.value.func, "id", "") == "super":
             return n.keywords
     return []
+
+
+def _angle_over_pi(e):
+    """q (mod 2) with e == exp(i pi q), for a canonical form made of expi(pi) powers and conjugates"""
+    from fractions import Fraction as Fr_
+
+    e = as_poly(e)
+    if len(e.t) != 1:
+        raise ValueError(str(e))
+    ((m, c),) = e.t.items()
+    if c != alg.ONE:
+        if c == -alg.ONE and not m:
+            return Fr_(1)
+        raise ValueError(str(e))
+    q = Fr_(0)
+    for a, x in m:
+        if a[0] == "expi" and str(Poly({a[1]: alg.ONE}) if not isinstance(a[1], Poly) else a[1]) == "pi":
+            q += Fr_(x)
+        elif a[0] == "conj":
+            q -= _angle_over_pi(a[1]) * Fr_(x)
+        else:
+            raise ValueError(str(e))
+    return q % 2
 
 
 def run(tier="quick", only_key=None):
@@ -61,7 +84,30 @@ def run(tier="quick", only_key=None):
         rou = et.env.get("roots_of_unity")
     except KeyError:
         raise AnalysisBroken("exponax.etdrk.roots_of_unity vanished")
-    roots = it.call(rou, [M])
+    # (a) concrete contour sizes: the M returned points are exactly the documented ones (as a multiset: the contour mean
+    #     does not depend on their order), for every M up to 12, odd and even
+    from fractions import Fraction as Fr_
+
+    for M_ in range(1, 13):
+        key_c = f"exponax.etdrk._utils.roots_of_unity#M={M_}"
+        r_ = it.call(rou, [M_])
+        want = sorted((Fr_(2 * j - 1, M_) % 2) for j in range(1, M_ + 1))
+        try:
+            got = sorted(_angle_over_pi(e) for e in r_.data) if isinstance(r_, Tens) else None
+        except ValueError as ex:
+            ck.notes.append(f"roots_of_unity({M_}): a contour point is not of the form exp(i pi q) ({ex}); concrete rule skipped, the symbolic one decides")
+            continue
+        if got == want and tuple(r_.shape) == (M_,):
+            ck.ok("roots", key_c)
+        else:
+            ck.fail("roots", key_c, loc(rou), f"roots_of_unity({M_}) returns {len(got) if got is not None else '?'} points at angles pi*{[str(x) for x in (got or [])]}; documented: {M_} points at pi*{[str(x) for x in want]} (every ETDRK coefficient divides the contour sum by M)")
+    # (b) symbolic M
+    try:
+        roots = it.call(rou, [M])
+    except AnalysisError as ex:
+        if ck.violations:
+            return ck.finish(explanation="ABORTED after the contour points were found wrong for concrete sizes; " + str(ex)[:200], rule_text="contour points for M = 1..12", exhaustive=False)
+        raise
     code_root = alg.map_atoms(roots.data[0], lambda a: Poly.atom(SP.BOUND) if a == ("idx", "ar") else None)
     ck.compare("roots", "exponax.etdrk._utils.roots_of_unity", loc(rou), (tuple(roots.shape), code_root), ((M,), SP.root_of_unity_rep(M)))
 
